@@ -12,6 +12,7 @@ CONSTANTS
   IfN = "eq0"
   Loop = "for"
   Delete = TRUE
+  NRead = "locked"
   Mode = "design"
 CONSTRAINT Hwm
 INVARIANTS NoSpurious AtMostOncePerReport NoLost WakeInv NoLostWakeup
